@@ -8,7 +8,35 @@ import traceback
 from . import core
 
 
+def numba_cache_for_tree():
+    """numba's on-disk cache is keyed on the source file of the cached function only: an edit to a *callee* module
+    leaves stale machine code behind (seen: collapse_modes kept an old effective_rigidity_general). Key the cache
+    directory on the state of every .py under the repo so that any edit gets a fresh cache."""
+    import hashlib
+    h = hashlib.sha1()
+    root = os.path.join(core.REPO, "TidalPy")
+    for d, dirs, files in sorted(os.walk(root)):
+        dirs.sort()
+        for f in sorted(files):
+            if f.endswith(".py"):
+                p = os.path.join(d, f)
+                st = os.stat(p)
+                h.update(("%s:%d:%d;" % (p, st.st_mtime_ns, st.st_size)).encode())
+    base = os.path.join(core.VERIF, ".scratch", "numba_cache")
+    os.makedirs(base, exist_ok=True)
+    d = os.path.join(base, h.hexdigest()[:16])
+    if not os.path.isdir(d):
+        import shutil
+        olds = sorted((os.path.join(base, x) for x in os.listdir(base)), key=os.path.getmtime)
+        for o in olds[:-1]:
+            shutil.rmtree(o, ignore_errors=True)
+        os.makedirs(d, exist_ok=True)
+    os.environ["NUMBA_CACHE_DIR"] = d
+    return d
+
+
 def main():
+    numba_cache_for_tree()
     ap = argparse.ArgumentParser()
     ap.add_argument("pid")
     ap.add_argument("--tier", default=os.environ.get("VERIF_TIER", "quick"), choices=["quick", "thorough"])
